@@ -283,6 +283,10 @@ func (r *Runner) Run() int {
 	allExh := true
 	for si := range spaces {
 		sp := &spaces[si]
+		// Every space runs in worker processes: a fatal runtime error of the code under test
+		// (stack overflow, concurrent map access, out of memory) must end as a VIOLATION
+		// attributed to one execution, never as a dead check.
+		sp.Isolate = true
 		st := r.runSpace(sp)
 		r.stats = append(r.stats, st)
 		if !st.Exhaustive {
